@@ -1,17 +1,18 @@
 #!/bin/bash
 # usage: seedcheck.sh <patch.diff> <tier> <property>...
-# Applies the patch to a scratch worktree of /repo's HEAD (/tmp/seedrepo; other people may be running checks
+# Applies the patch to a scratch worktree of /repo's HEAD ($SR; other people may be running checks
 # against /repo itself), runs the checks there through VCHECK_REPO, and removes the change again.
 patch=$1; tier=$2; shift 2
-if [ ! -d /tmp/seedrepo ]; then git -C /repo worktree add -q --detach /tmp/seedrepo HEAD || exit 2; fi
-cd /tmp/seedrepo || exit 2
+SR=${SEEDREPO:-/tmp/seedrepo}
+if [ ! -d $SR ]; then git -C /repo worktree add -q --detach $SR HEAD || exit 2; fi
+cd $SR || exit 2
 git checkout -q --detach $(git -C /repo rev-parse HEAD) && git checkout -q -- . && git clean -fdq
 git apply "$patch" || { echo "patch does not apply"; exit 2; }
-trap 'git -C /tmp/seedrepo checkout -q -- . ; git -C /tmp/seedrepo clean -fdq' EXIT
+trap "git -C $SR checkout -q -- . ; git -C $SR clean -fdq" EXIT
 cd /verif
 for p in "$@"; do
   cp evidence/$p.json /tmp/evidence_keep_$p.json 2>/dev/null
-  VCHECK_REPO=/tmp/seedrepo ./bin/vcheck run --property $p --tier $tier > /tmp/seedcheck_$p.log 2>&1
+  VCHECK_REPO=$SR ./bin/vcheck run --property $p --tier $tier > /tmp/seedcheck_$p.log 2>&1
   rc=$?
   cp /tmp/evidence_keep_$p.json evidence/$p.json 2>/dev/null
   echo "$p rc=$rc :: $(grep -E '^VIOLATION' /tmp/seedcheck_$p.log | head -3 | sed 's/.*replays.//' | tr '\n' ' ' | cut -c1-300) $(tail -1 /tmp/seedcheck_$p.log | cut -c1-120)"
